@@ -10,10 +10,13 @@ skip_demo = "--skip-demo" in sys.argv
 PID = lid.upper()
 src = f"/tmp/seed-{lid}/out/{ch}"
 wt = f"/tmp/seed-{lid}/wt"
-patch = os.path.join(src, "patch.diff")
-demo = os.path.join(src, "demo.rs")
 dst = f"/verif/seeded/{PID}-{ch}"
 os.makedirs(dst, exist_ok=True)
+if not os.path.exists(os.path.join(src, "patch.diff")) and os.path.exists(os.path.join(dst, "patch.diff")):
+    # the seeding agent's workspace is gone: re-evaluate the stored copy
+    src = dst
+patch = os.path.join(src, "patch.diff")
+demo = os.path.join(src, "demo.rs")
 def sh(cmd, cwd=None, env=None, timeout=3600):
     r = subprocess.run(cmd, shell=True, cwd=cwd, env=env, capture_output=True, text=True, timeout=timeout)
     return r.returncode, r.stdout + r.stderr
@@ -81,8 +84,9 @@ try:
 except Exception:
     pass
 res["verif_commit"] = sh("git -C /verif rev-parse --short HEAD")[1].strip() + ("+dirty" if sh("git -C /verif status --porcelain -- harness bin")[1].strip() else "")
-shutil.copy(patch, os.path.join(dst, "patch.diff"))
-shutil.copy(demo, os.path.join(dst, "demo.rs"))
+if src != dst:
+    shutil.copy(patch, os.path.join(dst, "patch.diff"))
+    shutil.copy(demo, os.path.join(dst, "demo.rs"))
 meta = json.load(open(os.path.join(src, "meta.json")))
 meta["verified_by_coordinator"] = res
 json.dump(meta, open(os.path.join(dst, "meta.json"), "w"), indent=1)
